@@ -31,6 +31,10 @@ def gen_files():
             if f is None or ii is None or f.default is not None or ii.default is not False:
                 raise Inexpressible("classic.%s: defaults of filter/ignore_invalid are not None/False" % name)
             flags.append(lean_str(name))
+        if name in ("upload_dir", "download_dir"):
+            f = params.get("filter")
+            if f is None or f.default is not None:
+                raise Inexpressible("classic.%s: the default of filter is not None" % name)
     L = ["namespace Rpyc.Gen.Files", "",
          "/-- default `chunk_size` of each transfer function (`consts.STREAM_CHUNK`) -/",
          "def defaultChunks : List (String × Nat) := " + lean_list(chunks, 3), "",
